@@ -84,7 +84,14 @@ Run(T, p, B) ==
             [] k = "pick" ->
                  \* which member of the pipeline the shell waits for next shows in what it
                  \* does next: the member it reaps, or whose stop / continue it acknowledges
-                 LET cand == PipeLeft(T.ph[p]) \cap (B.rp \cup B.ak)
+                 \* (inside one batch no other process acts: a member that is only reaped was
+                 \* waited for before one whose stop / continue is acknowledged, because after
+                 \* an acknowledgement the shell goes on waiting for that same member)
+                 LET L  == PipeLeft(T.ph[p])
+                     c1 == {c \in L \cap B.rp : c \notin B.ak}
+                     c2 == L \cap B.rp
+                     c3 == L \cap B.ak
+                     cand == IF c1 # {} THEN c1 ELSE IF c2 # {} THEN c2 ELSE c3
                  IN IF cand # {} THEN Run(Apply(T, p, CHOOSE c \in cand : TRUE), p, B) ELSE stop
             [] k = "reapany" ->
                  IF ChangedKids(T, p) \cap B.rp # {}
